@@ -60,6 +60,16 @@ Plan ==
               (E.mayRefuse <=> ~(Representable(LL(E)) /\ HeaderFits(E.S, E.F))), "infra")
   /\ plan' = E /\ st' = "planned" /\ elen' = 0 /\ Consume
 
+\* script/feature list cases start from bytes written by the harness straight from the OpenType
+\* format; the library reads them to obtain its own representation (the language.Tag values).  Every
+\* language system and every feature written must arrive: the reader may not drop data silently.
+Prep ==
+  /\ Is("prep") /\ st = "planned" /\ E.case = plan.case
+  /\ Check(E.ok, "reader-rejects-lists")
+  /\ Check(E.ok => E.nread = E.npairs, "reader-drops-language-system")
+  /\ st' = IF E.ok /\ E.nread = E.npairs THEN "planned" ELSE "idle"
+  /\ UNCHANGED <<plan, elen>> /\ Consume
+
 Encode ==
   /\ Is("encode") /\ st = "planned" /\ E.case = plan.case
   /\ IF E.outcome = "panic"
@@ -130,7 +140,7 @@ Decode ==
   /\ E.ok => Check(E.dec = E.orig, "roundtrip")
   /\ st' = "idle" /\ UNCHANGED <<plan, elen>> /\ Consume
 
-Next == Plan \/ Encode \/ Walk \/ Decode
+Next == Plan \/ Prep \/ Encode \/ Walk \/ Decode
 Spec == Init /\ [][Next]_vars
 
 Accepted == IF TLCGet(1) = Len(Trace) THEN TRUE
